@@ -204,6 +204,9 @@ func runC12(d *RunDesc, res *RunResult) {
 		for i := range d.Tasks[0] {
 			op := &d.Tasks[0][i]
 			cc.op = i
+			if op.K != "dec" {
+				ctx.tick(op)
+			}
 			switch op.K {
 			case "nils", "fresh":
 				for k := 0; k < NKinds; k++ {
